@@ -802,6 +802,13 @@ let rec eqb0 s1 s2 =
      | [] -> false
      | c2::s2' -> if (=) c1 c2 then eqb0 s1' s2' else false)
 
+(** val append : char list -> char list -> char list **)
+
+let rec append s1 s2 =
+  match s1 with
+  | [] -> s2
+  | c::s1' -> c::(append s1' s2)
+
 type exn =
 | ValueError
 | IndexError
@@ -1182,7 +1189,19 @@ let cell_uint64 = function
 let is_num_or_none = function
 | CNone -> true
 | CFlt _ -> true
-| CInt z0 -> in_int64 z0
+| CInt _ -> true
+| _ -> false
+
+(** val out_int64 : cell -> bool **)
+
+let out_int64 = function
+| CInt z0 -> negb (in_int64 z0)
+| _ -> false
+
+(** val is_per_any : cell -> bool **)
+
+let is_per_any = function
+| CPer (_, _) -> true
 | _ -> false
 
 (** val is_str_or_none : cell -> bool **)
@@ -1225,7 +1244,9 @@ let pd_infer cs = match cs with
                  else if forallb is_str_or_none cs
                       then Some (PStrDt, (map none_to_nan cs))
                       else if forallb is_num_or_none cs
-                           then Some (PFloat64, (map to_float_cell cs))
+                           then if existsb out_int64 cs
+                                then None
+                                else Some (PFloat64, (map to_float_cell cs))
                            else if forallb is_ts cs
                                 then Some (PDatetime, cs)
                                 else (match c0 with
@@ -1234,13 +1255,8 @@ let pd_infer cs = match cs with
                                         then Some ((PPeriod f), cs)
                                         else None
                                       | _ ->
-                                        if (||)
-                                             ((||) (existsb is_none cs)
-                                               (existsb is_ts cs))
-                                             (existsb (fun c ->
-                                               match c with
-                                               | CPer (_, _) -> true
-                                               | _ -> false) cs)
+                                        if (||) (existsb is_ts cs)
+                                             (existsb is_per_any cs)
                                         then None
                                         else Some (PObject, cs))
 
@@ -1409,6 +1425,18 @@ let model_to_table status iterations include_internal m =
       | None -> TUnmodelled)
    | Raise e -> TErr e)
 
+(** val container_to_table :
+    span -> (char list * series) list -> table tres **)
+
+let container_to_table sp vars =
+  match pd_index sp with
+  | Some ix ->
+    let n0 = length ix.ilabels in
+    if negb (forallb (fun kv -> Nat.eqb (length (snd kv).scells) n0) vars)
+    then TErr ValueError
+    else TOk { tindex = ix; tcols = (map col_of vars) }
+  | None -> TUnmodelled
+
 type flinker = { lname : cell; lmodel : fmodel; lsubs : (cell * fmodel) list }
 
 (** val dset : cell -> 'a1 -> (cell * 'a1) list -> (cell * 'a1) list **)
@@ -1550,6 +1578,21 @@ let np_cast d c =
   | NStr ->
     (match c with
      | CNone -> TOk (CStr ('N'::('o'::('n'::('e'::[])))))
+     | CFlt f ->
+       (match f with
+        | FInt z0 ->
+          if Z.ltb (Z.abs z0) (Zpos (XO (XO (XO (XO (XO (XO (XO (XO (XO (XO
+               (XO (XO (XO (XO (XO (XI (XO (XI (XI (XO (XO (XO (XI (XI (XO
+               (XO (XI (XO (XO (XI (XO (XI (XO (XI (XI (XI (XI (XI (XI (XO
+               (XI (XO (XI (XI (XO (XO (XO (XI (XI
+               XH))))))))))))))))))))))))))))))))))))))))))))))))))
+          then TOk (CStr (append (string_of_Z z0) ('.'::('0'::[]))))
+          else TUnmodelled
+        | FFrac (_, _) -> TUnmodelled
+        | FNegZero -> TOk (CStr ('-'::('0'::('.'::('0'::[])))))
+        | FNaN -> TOk (CStr ('n'::('a'::('n'::[]))))
+        | FPInf -> TOk (CStr ('i'::('n'::('f'::[]))))
+        | FNInf -> TOk (CStr ('-'::('i'::('n'::('f'::[]))))))
      | CInt z0 -> TOk (CStr (string_of_Z z0))
      | CBool b ->
        TOk (CStr
@@ -1655,26 +1698,18 @@ let rec all_some = function
       | None -> None)
    | None -> None)
 
-(** val cell_of_oidx : bool -> pidx option -> cell option **)
+(** val cell_of_oidx : pidx option -> cell option **)
 
-let cell_of_oidx strict = function
-| Some p ->
-  (match p with
-   | IInt z0 ->
-     if (&&) strict (negb (in_int64 z0)) then None else Some (CInt z0)
-   | IStr _ -> None)
+let cell_of_oidx = function
+| Some p -> (match p with
+             | IInt z0 -> Some (CInt z0)
+             | IStr _ -> None)
 | None -> Some CNone
-
-(** val is_None : 'a1 option -> bool **)
-
-let is_None = function
-| Some _ -> false
-| None -> true
 
 (** val idx_cells : pidx option list -> cell list option **)
 
 let idx_cells os =
-  all_some (map (cell_of_oidx (existsb is_None os)) os)
+  all_some (map cell_of_oidx os)
 
 (** val mk_column : char list -> cell list -> pcolumn option **)
 
